@@ -34,7 +34,7 @@ LEVEL_NOTE = ('Trusted: Lean kernel and Mathlib; np.linalg.pinv(basis) = (BᵀB)
               'the property itself is judged on the library\'s results at 1e-12 x cond); the harness\'s numpy reference for conditioning and coordinates; float rounding; generator coverage (histories of '
               '6-9 calls, layouts, dtypes).')
 TECHNIQUE = 'Lean 4 proof over Mathlib matrices + executable Lean model of basis/fit/compose/remove with differential correspondence on call histories'
-GEN = ['ZernikeCalls', 'ZernikeR']
+GEN = ['ZernikeCalls', 'ZernikeR', 'Mesh', 'Util', 'Helper', 'Helper20', 'Hex', 'Extent', 'FieldAccum', 'FieldDispatch', 'FieldIdx', 'FieldMerge']      # every Gen module imported transitively
 OPS = ['C11', 'C12']
 RULE = ('extra cases: a mode requested twice (observed: remove unchanged, coefficient split) and OPDs with NaN / +-inf outside the mask (known finding KF-C12-nonfinite-outside-mask); cases = call histories of 6-9 compose/fit/remove calls in one process on one mask (circular / hexagonal / segmented / off-centre / '
         'irregular weighted, sizes 9..22 even and odd; all built by the harness, not by the library): same modes with default then caller-supplied (shifted, rotated) coordinates, both '
@@ -225,7 +225,7 @@ PARTNERS = _partners(1, 36)
 PARTNERS_HI = _partners(37, 66)            # radial orders 8..10
 
 def _generate(rng, tier):
-    n = {'quick': 30, 'thorough': 460, 'search': 100}[tier]
+    n = {'quick': 26, 'thorough': 460, 'search': 100}[tier]
     kinds = ['circle', 'hexagon', 'segmented', 'offcentre', 'irregular']
     out = []
     ptr = int(rng.integers(0, len(PARTNERS)))
@@ -233,7 +233,7 @@ def _generate(rng, tier):
         kind = kinds[k % 5]
         paired = k % 2 == 1
         high = paired and k % 10 == 7          # Noll 37..66 on the larger masks (3 histories of a quick run)
-        size = int(rng.integers(18, 23)) if high else int(rng.integers(14, 23)) if paired else int(rng.integers(9, 23))
+        size = int(rng.integers(17, 21)) if high else int(rng.integers(14, 20)) if paired else int(rng.integers(9, 23))
         m = _mask(rng, kind, size)
         nm = int(rng.integers(1, 7))
         top = 37 if (k % 4 == 2 and size >= 14) else 22
